@@ -9,11 +9,12 @@ package internal
 //@ func isHexDigit
 //@   property C03
 //@   pure
-//@   ensures result == ((c >= '0' && c <= '9') || (c >= 'A' && c <= 'F') || (c >= 'a' && c <= 'f'))  # name: exact
+//@   ensures result == hexDigit(c)  # name: exact
 
 //@ func fromHex
 //@   property C03
 //@   pure
+//@   ensures hexDigit(c) ==> result == hexVal(c)                   # name: value
 //@   ensures c >= '0' && c <= '9' ==> result == c - '0'            # name: digit
 //@   ensures c >= 'a' && c <= 'f' ==> result == c - 'a' + 10       # name: lower
 //@   ensures c >= 'A' && c <= 'F' ==> result == c - 'A' + 10       # name: upper
@@ -789,3 +790,59 @@ package internal
 //@   pure
 //@   requires a != nil && b != nil
 //@   ensures result == (lower(a.Scheme) == lower(b.Scheme) && lower(nameOfHost(a.Host)) == lower(nameOfHost(b.Host)) && effPort(a) == effPort(b))    # name: scheme-host-port
+
+// ---- C03: percent-encoding normalisation (RFC 3986 §6.2.2.1-6.2.2.2) ------------------------------
+//@ spec func hexDigit(c byte) bool = (c >= '0' && c <= '9') || (c >= 'A' && c <= 'F') || (c >= 'a' && c <= 'f')
+//@ spec func hexVal(c byte) byte = ite(c >= '0' && c <= '9', c - '0', ite(c >= 'a' && c <= 'f', c - 'a' + 10, c - 'A' + 10))
+//@ spec func unreservedB(c byte) bool = (c >= 'a' && c <= 'z') || (c >= 'A' && c <= 'Z') || (c >= '0' && c <= '9') || c == '-' || c == '.' || c == '_' || c == '~'
+//@ spec func hexU(n byte) byte = ite(n < 10, '0' + n, 'A' + n - 10)
+//@ spec func pctUpper(v byte) string = "%" + byteStr(hexU(v >> 4)) + byteStr(hexU(v & 15))
+//@ spec func isTriplet(s string, i int) bool = s[i] == '%' && i + 2 < len(s) && hexDigit(s[i+1]) && hexDigit(s[i+2])
+//@ spec func tripletVal(s string, i int) byte = hexVal(s[i+1]) << 4 | hexVal(s[i+2])
+// np(s, i): the normal form of the first i bytes of s. DEFINITION (these axioms are the specification):
+// an escape of an unreserved ASCII byte is decoded, any other escape gets upper-case hex digits, every
+// other byte (including a stray '%') is copied.
+//@ spec func np(s string, i int) string
+//@ axiom np-empty: forall s string :: np(s, 0) == ""
+//@ axiom np-copy: forall s string, i int :: 0 <= i && i < len(s) && !isTriplet(s, i) ==> np(s, i + 1) == app1(np(s, i), s[i])
+//@ axiom np-decode: forall s string, i int :: 0 <= i && i < len(s) && isTriplet(s, i) && unreservedB(tripletVal(s, i)) ==> np(s, i + 3) == app1(np(s, i), tripletVal(s, i))
+//@ axiom np-upper: forall s string, i int :: 0 <= i && i < len(s) && isTriplet(s, i) && !unreservedB(tripletVal(s, i)) ==> np(s, i + 3) == np(s, i) + pctUpper(tripletVal(s, i))
+
+//@ func isUnreserved
+//@   property C03
+//@   pure
+//@   ensures 0 <= r && r <= 255 ==> result == unreservedB(byte(r))          # name: ascii-only
+//@   ensures r < 0 || r > 127 ==> !result                                    # name: non-ascii-is-reserved
+//@ func percentEncodeUpper
+//@   property C03
+//@   pure
+//@   ensures result == pctUpper(b)                                           # name: upper-hex-escape
+//@ func normalizePercentEncoding
+//@   property C03 C09
+//@   pure
+//@   ensures result == np(s, len(s))                                         # name: equals-normal-form
+//@   loop 0 invariant 0 <= i && i <= len(s) && sbc[&b] == np(s, i)
+
+// ---- C03: composition of the store key from the (net/url-normalised) URL ---------------------------
+// host / port split of an authority (copied from net/url: numeric port after the last colon, one pair of
+// brackets removed); trusted naming of what splitHostPort computes
+//@ spec func hostPartOf(hp string) string
+//@ spec func portPartOf(hp string) string
+//@ func splitHostPort
+//@   trusted
+//@   pure
+//@   ensures host == hostPartOf(hostPort) && port == portPartOf(hostPort)
+//@ spec func effPortS(scheme string, hp string) string = ite(portPartOf(hp) == "", ite(scheme == "http", "80", ite(scheme == "https", "443", "")), portPartOf(hp))
+//@ spec func defPortS(scheme string) string = ite(scheme == "http", "80", ite(scheme == "https", "443", ""))
+// lower-cased host, in brackets when it contains a colon (IPv6 literal), followed by ":port" unless the port is the scheme's default
+//@ spec func hostKeyS(hp string) string = ite(containsS(lower(hostPartOf(hp)), ":"), "[" + lower(hostPartOf(hp)) + "]", lower(hostPartOf(hp)))
+//@ spec func authorityS(scheme string, hp string) string = ite(effPortS(scheme, hp) != "" && effPortS(scheme, hp) != defPortS(scheme), hostKeyS(hp) + ":" + effPortS(scheme, hp), hostKeyS(hp))
+//@ spec func pathOrSlash(scheme string, ep string) string = ite(ep == "" && (scheme == "http" || scheme == "https"), "/", ep)
+//@ spec func npAll(s string) string = np(s, len(s))
+//@ spec func composeKey(n *url.URL) string = ite(n.RawQuery != "", n.Scheme + "://" + authorityS(n.Scheme, n.Host) + npAll(pathOrSlash(n.Scheme, escPathV(n.Path, n.RawPath))) + ("?" + npAll(n.RawQuery)), n.Scheme + "://" + authorityS(n.Scheme, n.Host) + npAll(pathOrSlash(n.Scheme, escPathV(n.Path, n.RawPath))))
+//@ func makeURLKey
+//@   property C03 C09 C10
+//@   requires u != nil
+//@   assigns lastResolved
+//@   ensures u.Opaque != "" ==> result == u.Opaque                                                      # name: opaque-is-the-key
+//@   ensures u.Opaque == "" ==> result == composeKey(u) || (fresh(lastResolved) && result == composeKey(lastResolved))     # name: key-is-scheme-authority-path-query
